@@ -1871,6 +1871,87 @@ def gen_parameter_case(rng):
     return {'kind': 'parameter', 'initial': v, 'lo': lo, 'hi': hi, 'cls': 'parameter-guard'}
 
 
+# ---- the objective of the Newton-Raphson path of LLHRatio.maximize, probed at arbitrary points
+
+def run_nr_objective(case):
+    """real LLHRatio.maximize (NR path: the implementation *is a* NR1dNsMinimizerImpl) around a probing implementation
+    that evaluates the objective at the scripted points — which differ in every parameter, also the source-mapped
+    ones — records what it gets and returns the best of them."""
+    from skyllh.core.minimizer import NR1dNsMinimizerImpl
+    from skyllh.core.random import RandomStateService
+    rec = {'got': [], 'kw': None}
+    pts = case['points']
+
+    class ProbeNR(NR1dNsMinimizerImpl):
+        def minimize(self, initials, bounds, func, func_args=None, **kwargs):
+            rec['kw'] = dict(kwargs)
+            best = None
+            for p_ in pts:
+                x = np.array(p_, dtype=np.float64)
+                t = func(x, *(func_args or ()))
+                rec['got'].append((x, tuple(float(v) for v in t)))
+                if best is None or t[0] < best[1]:
+                    best = (x, t[0])
+            return (best[0], best[1], {'warnflag': 0, 'warnreason': '', 'niter': 0, 'last_nr_step': 0.0})
+    llh = build_llh(case, ProbeNR(cfg=cfg()))
+    (v, x, st) = llh.maximize(RandomStateService(1))
+    idx = layout(case)[1]
+    rec.update(v=float(v), x=[float(t) for t in x], idx=idx)
+    rec['ev'] = []
+    for p_ in pts:      # fresh evaluations, each on its own
+        x_ = np.array(p_, dtype=np.float64)
+        (f, g) = llh.evaluate(x_)
+        g2 = llh.calculate_ns_grad2(ns=x_[idx], ns_pidx=idx, src_params_recarray=None)
+        rec['ev'].append((float(f), [float(t) for t in g], float(g2)))
+    return rec
+
+
+def nr_objective_reqs(case):
+    rec = run_nr_objective(case)
+    return ['negnr %s %s %d %s' % (f2b(f), flist(g), rec['idx'], f2b(g2)) for (f, g, g2) in rec['ev']]
+
+
+def o_nr_objective(ctx, case, ans=None):
+    """the objective LLHRatio.maximize hands to a Newton-Raphson implementation returns, at *every* point asked for
+    (also points that differ from the initial values in the parameters mapped to the sources), the negated value,
+    ns-gradient and second ns-derivative of a fresh llh evaluation at that point (= the model's `negNrFunc`), the
+    index of ns is announced, and log_lambda_max is the llh at the reported point."""
+    rec = run_nr_objective(case)
+    if ans is None:
+        ans = ctx.driver('C11', nr_objective_reqs(case))
+    idx = rec['idx']
+    if idx != 0 and rec['kw'].get('ns_pidx') != idx:
+        return 'LLHRatio.maximize calls the NR implementation with kwargs %r, ns is fit parameter %d' % (rec['kw'], idx)
+    for (x, t), (ef, eg, eg2), a in zip(rec['got'], rec['ev'], ans):
+        want = (-ef, -eg[idx], -eg2)
+        if not all(_same(p_, q_) for p_, q_ in zip(t, want)):
+            return ('the objective LLHRatio.maximize hands to the NR implementation returns %r at %r, a fresh evaluation there gives '
+                    '(-llh, -dllh/dns, -d2llh/dns2) = %r: it is not a function of the point asked for (parameter layout %s)') % (
+                        t, x.tolist(), want, ','.join(layout(case)[0]))
+        m = [b2f(v) for v in a.split(' ')] if a != 'ERR' else None
+        if m is None or not all(_same(p_, q_) for p_, q_ in zip(t, m)):
+            return 'NR objective at %r: implementation %r, model negNrFunc %r' % (x.tolist(), t, m)
+    best = min(range(len(rec['got'])), key=lambda i: rec['got'][i][1][0])
+    if not (_same(rec['v'], rec['ev'][best][0]) and all(_same(p_, q_) for p_, q_ in zip(rec['x'], rec['got'][best][0]))):
+        return 'log_lambda_max=%r at %r, the llh evaluated at the point the implementation reported (%r) is %r' % (
+            rec['v'], rec['x'], rec['got'][best][0].tolist(), rec['ev'][best][0])
+    return None
+
+
+def gen_nr_objective_case(rng):
+    cls = rng.choice(['interior', 'interior', 'upper'])
+    obj = gen_llh_obj(rng, cls)
+    obj['c'] = [rng.uniform(-1, 1) for _ in obj['R']]
+    lo, hi, ns0 = gen_bounds_llh(rng, obj, cls)
+    cs = {'kind': 'nr', 'obj': obj, 'ns0': ns0, 'lo': lo, 'hi': hi, 'tol': 1e-3, 'max_steps': 100,
+          'order': rng.choice([['ns', 'p2'], ['p2', 'ns'], ['ns', 'p2', 'd'], ['d', 'p2', 'ns']]),
+          'p2lo': 1.0, 'p2hi': 4.0, 'p20': rng.choice([1.0, 2.0, 1.0 + 3 * rng.random()])}
+    (init, bounds) = init_bounds(cs)
+    cs['points'] = [list(init)] + [[b[0] + (b[1] - b[0]) * rng.random() for b in bounds] for _ in range(rng.choice([2, 4]))]
+    cs['cls'] = 'nr-objective:' + ','.join(cs['order'])
+    return cs
+
+
 # ---- ScipyMinimizerImpl: what happens to the bounds, per method
 
 SCIPY_METHODS = ['L-BFGS-B', 'TNC', 'SLSQP', 'COBYLA', 'Nelder-Mead', 'BFGS', 'Powell', 'CG', 'trust-constr', 'Newton-CG', 'COBYQA']
@@ -2000,7 +2081,7 @@ ORACLES = {
     'success_floor': o_success_floor, 'status_tables': o_status_tables,
     'history_contract': o_history_contract, 'functor_history': o_functor_history,
     'lbfgs_scripted': o_lbfgs_scripted, 'wrapper_exceptions': o_wrapper_exceptions, 'generic_objective': o_generic_objective,
-    'bounds_mode': o_bounds_mode, 'parameter_guard': o_parameter_guard,
+    'bounds_mode': o_bounds_mode, 'parameter_guard': o_parameter_guard, 'nr_objective': o_nr_objective,
 }
 
 
@@ -2226,7 +2307,7 @@ def _classify(res):
     for key, tag in (('outside', 'out-of-bounds'), ('func(xmin', 'fmin-inconsistent'), ('silently', 'silent-nonconverged'),
                      ('warnflag', 'flag'), ('stationary', 'not-stationary'), ('initial point', 'worse-than-initial'),
                      ('containing NaN', 'nan-passed-through'), ('must not vary', 'wrong-parameter-varied'), ('initial value of the second', 'scan-worse-than-initial'), ('dropped silently', 'scan-point-not-converged'), ('log_lambda_max', 'maximize-negation'), ('repetitions', 'repetitions'), ('first best', 'scan-best'),
-                     ('on the same object', 'stale-state-between-minimisations'), ('FuncWithGradsFunctor', 'functor-cache'), ('swallowed', 'exception-swallowed'), ('scripted optimiser', 'lbfgs-restart-logic'), ('is_repeatable', 'status-table'), ('has_converged', 'status-table'), ('negated value', 'objective-negation'), ('the bounds are', 'bounds-mode'), ('handed in', 'input-mutated-or-aliased'), ('float64 ndarray', 'xmin-type'), ('given the bounds', 'impl-out-of-bounds'), ('constrained optimum', 'not-constrained-optimum'),
+                     ('on the same object', 'stale-state-between-minimisations'), ('FuncWithGradsFunctor', 'functor-cache'), ('swallowed', 'exception-swallowed'), ('scripted optimiser', 'lbfgs-restart-logic'), ('is_repeatable', 'status-table'), ('has_converged', 'status-table'), ('function of the point', 'objective-not-a-function-of-the-point'), ('negated value', 'objective-negation'), ('the bounds are', 'bounds-mode'), ('handed in', 'input-mutated-or-aliased'), ('float64 ndarray', 'xmin-type'), ('given the bounds', 'impl-out-of-bounds'), ('constrained optimum', 'not-constrained-optimum'),
                      ('inequality constraints', 'cobyla-constraints'), ('COBYLA constraints', 'cobyla-constraints')):
         if key in res:
             return tag
@@ -2426,8 +2507,23 @@ def run(ctx):
              {'p2lo': 2.0, 'p2hi': 3.0, 'p2step': 1.0, 'n': 0}, {'p2lo': 2.0, 'p2hi': 3.0, 'p2step': 1.0, 'n': 2}]
     cobs = [gen_cobyla_case(rng) for _ in range(ctx.n(25, 400))]
     # through LLHRatio.maximize with the NR implementations: the model's `maximize` runs on the recorded NR outcome
-    mruns = [(cs, res, obj) for (cs, res, obj) in runs if cs['obj']['shape'] == 'llh' and cs['ns0'] >= cs['lo'] and 'err' not in res]
-    mruns = mruns[:ctx.n(120, 2500)]
+    mall = [(cs, res, obj) for (cs, res, obj) in runs if cs['obj']['shape'] == 'llh' and cs['ns0'] >= cs['lo'] and 'err' not in res]
+    # every class must get through LLHRatio.maximize: all NR+scan cases on a real llh (scanned parameter mapped to the source,
+    # any layout) first, then NR-1D cases round-robin over the parameter layouts (a plain slice of the case list only ever
+    # reached the single-parameter NR-1D cases)
+    mscan = [r for r in mall if r[0]['kind'] == 'scan']
+    by_layout = {}
+    for r in mall:
+        if r[0]['kind'] != 'scan':
+            by_layout.setdefault(','.join(layout(r[0])[0]), []).append(r)
+    mnr = []
+    while any(by_layout.values()):
+        for k in sorted(by_layout):
+            if by_layout[k]:
+                mnr.append(by_layout[k].pop(0))
+    mruns = (mscan + mnr)[:ctx.n(120, 2500)]
+    for (cs, _, _) in mruns:
+        ctx.count('maximize:%s:%s%s' % (cs['kind'], ','.join(layout(cs)[0]), ':ratios-depend-on-p2' if cs['obj'].get('c') is not None else ''))
     slices = {}
     for i, (cs, res, obj) in enumerate(mruns):
         slices[('maximize_nr', i)] = (len(reqs), len(reqs) + 1)
@@ -2436,12 +2532,13 @@ def run(ctx):
     lbs = [gen_lbfgs_scripted_case(rng) for _ in range(ctx.n(40, 600))]
     wex = [gen_wrapper_exc_case(rng) for _ in range(ctx.n(40, 600))]
     gob = [gen_generic_objective_case(rng) for _ in range(ctx.n(12, 200))]
+    nob = [gen_nr_objective_case(rng) for _ in range(ctx.n(12, 200))]
     bms = [{'kind': 'bmode', 'method': m, 'grads': g, 'bounds': [[0.0, 1.0], [-1.0, 2.0]], 'cls': 'bounds-mode:' + m}
            for m in SCIPY_METHODS for g in (True, False)]
     sts = [{'kind': 'status', 'cls': 'status-tables'}]
     for name, lst, fn in (('linspace', lins, linspace_reqs), ('cobyla_constraints', cobs, cobyla_reqs),
                           ('functor_history', funs, functor_reqs), ('lbfgs_scripted', lbs, lbfgs_scripted_reqs),
-                          ('wrapper_exceptions', wex, wrapper_exc_reqs), ('generic_objective', gob, generic_objective_reqs),
+                          ('wrapper_exceptions', wex, wrapper_exc_reqs), ('generic_objective', gob, generic_objective_reqs), ('nr_objective', nob, nr_objective_reqs),
                           ('bounds_mode', bms, bounds_mode_reqs), ('status_tables', sts, status_reqs)):
         for i, cs in enumerate(lst):
             r = fn(cs)
@@ -2485,7 +2582,7 @@ def run(ctx):
     for (cs, res, state) in wruns:
         check('wrapper_contract', cs)
     for name, lst in (('linspace', lins), ('cobyla_constraints', cobs), ('functor_history', funs), ('lbfgs_scripted', lbs),
-                      ('wrapper_exceptions', wex), ('generic_objective', gob), ('bounds_mode', bms), ('status_tables', sts)):
+                      ('wrapper_exceptions', wex), ('generic_objective', gob), ('nr_objective', nob), ('bounds_mode', bms), ('status_tables', sts)):
         for i, cs in enumerate(lst):
             (a, b) = slices[(name, i)]
             ctx.count('oracle:' + name)
